@@ -239,8 +239,26 @@ class Check:
         sys.stderr.flush()
         os._exit(0)
 
+    @staticmethod
+    def _sweep_stale_scratch(max_age_s: float = 6 * 3600) -> None:
+        """scratch directories of workers that were killed (watchdog, Ctrl-C) would otherwise pile up"""
+        root = scratch_root()
+        now = time.time()
+        try:
+            for name in os.listdir(root):
+                if name.startswith("verif-"):
+                    p = os.path.join(root, name)
+                    try:
+                        if now - os.path.getmtime(p) > max_age_s:
+                            shutil.rmtree(p, ignore_errors=True)
+                    except OSError:
+                        pass
+        except OSError:
+            pass
+
     def _parent(self, args: Any, seed: int) -> int:
         t0 = time.time()
+        self._sweep_stale_scratch()
         setup_repo_path()
         tier = args.tier
         ncases = 0
